@@ -120,7 +120,7 @@ def timer_vectors(tier):
     big = [5, 1 << 20, (1 << 20) + 1, 3 << 20]
     cases = []
 
-    def sim(enabled, mp, sp, cycles, reset_at=None, nm=None, ns=None, isr=None):
+    def sim(enabled, mp, sp, cycles, reset_at=None, nm=None, ns=None, isr=None, kb=None):
         base = reset_at or 0
         next_m = base + mp if (enabled and mp > 0) else 0
         next_s = base + sp if (enabled and sp > 0) else 0
@@ -144,6 +144,15 @@ def timer_vectors(tier):
                     s = True
                     next_s += ((c - next_s) // sp + 1) * sp
             cur_isr |= (1 if m else 0) | (2 if s else 0)
+            if kb is not None:
+                # runtime entry point: when the main timer fires the keyboard is scanned; key events
+                # with keyboard interrupts enabled latch KEYI (ISR bit 2); a latch re-asserts it
+                ev = kb["events"][i % len(kb["events"])]
+                st["key_events"] = ev
+                if m and ev > 0 and kb["enabled"]:
+                    kb["latched"] = True
+                if kb["latched"]:
+                    cur_isr |= 4
             st.update(mti=m, sti=s, isr_after=cur_isr)
             if enabled and mp > 0:
                 st["next_mti"] = next_m
@@ -151,6 +160,8 @@ def timer_vectors(tier):
                 st["next_sti"] = next_s
             ticks.append(st)
         c = dict(enabled=enabled, mp=mp, sp=sp, ticks=ticks)
+        if kb is not None:
+            c.update(with_keyboard=True, kb_irq_enabled=kb["enabled"])
         if reset_at is not None:
             c["reset_at"] = reset_at
         if nm is not None:
@@ -168,6 +179,10 @@ def timer_vectors(tier):
             cases.append(sim(True, mp, sp, [c for c in every if c >= 5], nm=5, ns=6))     # restored targets, already due
             cases.append(sim(True, mp, sp, big))
         cases.append(sim(False, mp, sp, gaps))
+        if mp and mp <= 6 and sp <= 6:
+            for en in (True, False):
+                cases.append(sim(True, mp, sp, every, kb=dict(enabled=en, latched=False, events=[0, 0, 1, 0, 2, 0, 0])))
+                cases.append(sim(True, mp, sp, every, isr=[0x00, 0x04, 0x03], kb=dict(enabled=en, latched=False, events=[1, 0, 0])))
     return cases
 
 
